@@ -29,7 +29,8 @@ ALLOWED = {
     "ka-deva": ["top", "bottom"],
     "anusvara-deva": ["_top", "_bottom"],
 }
-POS = [(10, 20), (10.5, 20.5), (-250.5, 600), (104.75, 494.75)]
+# (zero coordinates on purpose: 0 is a valid, falsy coordinate)
+POS = [(0, 20), (10.5, 20.5), (-250.5, 0), (104.75, 494.75)]
 OPS = [(g, n) for g, _ in REP for n in ALLOWED[g]]
 CATEGORIES = {"a": "base", "b": "base", "ka-deva": "base", "f_i": "ligature", "acutecomb": "mark",
               "gravecomb": "mark", "cedillacomb": "mark", "anusvara-deva": "mark"}
